@@ -1,1 +1,503 @@
-//! (module to be written)
+//! Hyphenation by definition: tex.web part 40 (pre-hyphenation, §891-899), part 41 (§900-918, only the
+//! parts that decide *where* hyphens go), part 42 (Liang patterns, §919-931) and part 43 (reading
+//! `\patterns` and `\hyphenation`, §934-965). Nothing here is a trie: patterns are matched against
+//! `.word.` at every alignment, which is the definition the packed trie of §920-923 implements.
+//!
+//! Conventions: a *position* `p` of a word with `n` letters means "a hyphen may go after the p-th
+//! letter" (`hyf[p]` odd in §902/§923), `1 <= p <= n-1`. Letters are `char`s; the lower-case map of TeX
+//! (`lc_code`, 0 = not a letter) is a caller-supplied function `lc(c) -> Option<char>`.
+
+/// `lc_code` of plain TeX restricted to ASCII: letters map to their lower-case form, everything else
+/// is a non-letter (code 0).
+pub fn ascii_lc(c: char) -> Option<char> {
+    if c.is_ascii_alphabetic() {
+        Some(c.to_ascii_lowercase())
+    } else {
+        None
+    }
+}
+
+/// §1091 `norm_min`: `\lefthyphenmin` / `\righthyphenmin` are clamped to 1..=63 when a language is
+/// selected.
+pub fn norm_min(h: i64) -> usize {
+    if h <= 0 {
+        1
+    } else if h >= 64 {
+        63
+    } else {
+        h as usize
+    }
+}
+
+// ---------------------------------------------------------------------------------------------------
+// Patterns (§919-923, §960-963)
+
+/// The edge-of-word delimiter inside a pattern key (`hc[0] = hc[hn+1] = 0` in §923, "." in §962).
+pub const EDGE: char = '.';
+
+/// One pattern: the letter string `key` (lower-cased; `EDGE` for ".") and the digit in each of the
+/// `key.len() + 1` slots (slot k = between `key[k-1]` and `key[k]`).
+#[derive(Clone, Debug, PartialEq, Eq)]
+pub struct Pattern {
+    pub key: Vec<char>,
+    pub digits: Vec<u8>,
+}
+
+#[derive(Clone, Debug, PartialEq, Eq)]
+pub enum PatternError {
+    /// §962 "Nonletter": a character with `lc_code = 0`, which includes a digit that directly follows
+    /// a digit (`digit_sensed` is still true, so it is looked up as a letter).
+    Nonletter(char),
+    /// no letter at all (§961: `if k>0 then <insert a new pattern>`)
+    Empty,
+    /// more than 63 letters: §962 ignores what does not fit (`if k<63`), the result is another pattern
+    TooLong,
+    /// §963 "Duplicate pattern": the same letter string was entered before
+    Duplicate,
+}
+
+/// §962: scan one pattern. A digit sets `hyf[k]` where `k` is the number of letters seen so far;
+/// "." is the letter 0; other characters go through `lc_code`. §963: digits outside the edge
+/// delimiters are cleared (`if hc[1]=0 then hyf[0]:=0; if hc[k]=0 then hyf[k]:=0`).
+pub fn parse_pattern(text: &str, lc: &dyn Fn(char) -> Option<char>) -> Result<Pattern, PatternError> {
+    let mut key: Vec<char> = vec![];
+    let mut digits: Vec<u8> = vec![0];
+    let mut digit_sensed = false;
+    for c in text.chars() {
+        if !digit_sensed && c.is_ascii_digit() {
+            *digits.last_mut().unwrap() = c as u8 - b'0';
+            digit_sensed = true;
+        } else {
+            let l = if c == '.' { EDGE } else { lc(c).ok_or(PatternError::Nonletter(c))? };
+            if key.len() >= 63 {
+                return Err(PatternError::TooLong);
+            }
+            key.push(l);
+            digits.push(0);
+            digit_sensed = false;
+        }
+    }
+    if key.is_empty() {
+        return Err(PatternError::Empty);
+    }
+    if key[0] == EDGE {
+        digits[0] = 0;
+    }
+    if *key.last().unwrap() == EDGE {
+        *digits.last_mut().unwrap() = 0;
+    }
+    Ok(Pattern { key, digits })
+}
+
+/// Scores of one pattern on one (lower-cased) word: `out[p]` for `p in 0..=n` is the largest digit the
+/// pattern puts between letter `p` and letter `p+1` over all alignments in `.word.` (0 = none).
+pub fn pattern_scores(p: &Pattern, word: &[char]) -> Vec<u8> {
+    let n = word.len();
+    let mut out = vec![0u8; n + 1];
+    // dotted[0] = EDGE, dotted[1..=n] = word, dotted[n+1] = EDGE  (§923: hc[0]:=0; hc[hn+1]:=0)
+    let dotted = |i: usize| -> char {
+        if i == 0 || i == n + 1 {
+            EDGE
+        } else {
+            word[i - 1]
+        }
+    };
+    let len = p.key.len();
+    if len > n + 2 {
+        return out;
+    }
+    for s in 0..=(n + 2 - len) {
+        if (0..len).all(|k| dotted(s + k) == p.key[k]) {
+            // slot k of the pattern sits before dotted[s+k], i.e. after word letter number s+k-1
+            for (k, d) in p.digits.iter().enumerate() {
+                let before = s + k; // index into dotted
+                if before >= 1 && before - 1 <= n {
+                    let pos = before - 1;
+                    if out[pos] < *d {
+                        out[pos] = *d;
+                    }
+                }
+            }
+        }
+    }
+    out
+}
+
+// ---------------------------------------------------------------------------------------------------
+// Exceptions (§934-940)
+
+/// One `\hyphenation` entry: lower-cased letters and the listed positions (hyphen after that many letters).
+#[derive(Clone, Debug, PartialEq, Eq)]
+pub struct Exception {
+    pub letters: Vec<char>,
+    pub positions: Vec<usize>,
+}
+
+/// §935-938: letters go through `lc_code`, "-" records the current letter count. A non-letter is an
+/// error in TeX ("Not a letter", the character is skipped): reported as `None` here.
+pub fn parse_exception(text: &str, lc: &dyn Fn(char) -> Option<char>) -> Option<Exception> {
+    let mut letters = vec![];
+    let mut positions = vec![];
+    for c in text.chars() {
+        if c == '-' {
+            if letters.len() < 63 && !positions.contains(&letters.len()) {
+                positions.push(letters.len());
+            }
+        } else {
+            let l = lc(c)?;
+            if letters.len() < 63 {
+                letters.push(l);
+            }
+        }
+    }
+    Some(Exception { letters, positions })
+}
+
+// ---------------------------------------------------------------------------------------------------
+// A language: patterns + exceptions
+
+#[derive(Clone, Debug, Default)]
+pub struct Liang {
+    pub patterns: Vec<Pattern>,
+    pub exceptions: Vec<Exception>,
+    /// Finding D11 switch: when true an exception does not pre-empt the patterns (§930-931) but acts
+    /// as one more pattern `.word.` with digit 7 at the listed positions and 6 in every other slot.
+    pub exceptions_as_patterns: bool,
+}
+
+impl Liang {
+    pub fn new() -> Liang {
+        Liang::default()
+    }
+    /// §963. A duplicate letter string is reported and *not* entered.
+    pub fn add_pattern(&mut self, text: &str, lc: &dyn Fn(char) -> Option<char>) -> Result<(), PatternError> {
+        let p = parse_pattern(text, lc)?;
+        if self.patterns.iter().any(|q| q.key == p.key) {
+            return Err(PatternError::Duplicate);
+        }
+        self.patterns.push(p);
+        Ok(())
+    }
+    /// Whitespace-separated patterns; returns the errors.
+    pub fn add_patterns(&mut self, text: &str, lc: &dyn Fn(char) -> Option<char>) -> Vec<(String, PatternError)> {
+        let mut errs = vec![];
+        for w in text.split_whitespace() {
+            if let Err(e) = self.add_pattern(w, lc) {
+                errs.push((w.to_string(), e));
+            }
+        }
+        errs
+    }
+    /// §939-940: entries with fewer than two letters are not entered (`if n>1`); a later entry for the
+    /// same letters is found first by §931 (§941 swaps equal strings so that the newer one comes first).
+    pub fn add_exception(&mut self, text: &str, lc: &dyn Fn(char) -> Option<char>) -> bool {
+        match parse_exception(text, lc) {
+            Some(e) => {
+                if e.letters.len() > 1 {
+                    self.exceptions.push(e);
+                }
+                true
+            }
+            None => false,
+        }
+    }
+    pub fn exception_for(&self, word_lc: &[char]) -> Option<&Exception> {
+        self.exceptions.iter().rev().find(|e| e.letters == word_lc)
+    }
+    /// §923: `hyf[0..=n]` from the patterns alone.
+    pub fn pattern_scores(&self, word_lc: &[char]) -> Vec<u8> {
+        let mut out = vec![0u8; word_lc.len() + 1];
+        for p in &self.patterns {
+            for (o, s) in out.iter_mut().zip(pattern_scores(p, word_lc)) {
+                if *o < s {
+                    *o = s;
+                }
+            }
+        }
+        out
+    }
+    /// §923 + §930-931: the `hyf` array before the minima are applied: the exception entry if there is
+    /// one, else the pattern maxima.
+    pub fn hyf(&self, word_lc: &[char]) -> Vec<u8> {
+        let n = word_lc.len();
+        match self.exception_for(word_lc) {
+            Some(e) if !self.exceptions_as_patterns => {
+                let mut out = vec![0u8; n + 1];
+                for p in &e.positions {
+                    out[*p] = 1;
+                }
+                out
+            }
+            Some(e) => {
+                let mut out = self.pattern_scores(word_lc);
+                for (p, o) in out.iter_mut().enumerate() {
+                    let d = if e.positions.contains(&p) { 7 } else { 6 };
+                    if *o < d {
+                        *o = d;
+                    }
+                }
+                out
+            }
+            None => self.pattern_scores(word_lc),
+        }
+    }
+    /// Positions where a hyphen is permitted (§902: `l_hyf <= j <= hn - r_hyf` and `hyf[j]` odd; §923
+    /// clears everything outside that range). `word` may be in any case; `None` if it contains a
+    /// non-letter (such a string is never a word, §897).
+    pub fn positions(&self, word: &[char], lc: &dyn Fn(char) -> Option<char>, l_hyf: usize, r_hyf: usize) -> Option<Vec<usize>> {
+        let w: Option<Vec<char>> = word.iter().map(|c| lc(*c)).collect();
+        let w = w?;
+        let n = w.len();
+        let hyf = self.hyf(&w);
+        Some((l_hyf.max(1)..n).filter(|j| *j + r_hyf.max(1) <= n && hyf[*j] % 2 == 1).collect())
+    }
+}
+
+/// TeX's own restriction on top of Liang (§909 + §913-916): `reconstitute` records only the *first*
+/// odd position it passes while a ligature is being built (`hyphen_passed`, after which `hchar`
+/// becomes `non_char`), and the branch after the break is rebuilt with `hchar = non_char`, so later
+/// odd positions strictly inside the same reconstituted ligature are never offered.
+/// `ligs` are the letter spans `[a, b)` of the word's multi-letter ligatures; a position `p` is
+/// strictly inside when `a < p < b`.
+pub fn first_odd_per_ligature(positions: &[usize], ligs: &[(usize, usize)]) -> Vec<usize> {
+    let mut out = vec![];
+    for &p in positions {
+        match ligs.iter().find(|(a, b)| *a < p && p < *b) {
+            Some((a, _)) => {
+                if !positions.iter().any(|&q| *a < q && q < p) {
+                    out.push(p);
+                }
+            }
+            None => out.push(p),
+        }
+    }
+    out
+}
+
+// ---------------------------------------------------------------------------------------------------
+// The word finder (§894-899)
+
+/// A horizontal-list node as far as §894-899 look at it.
+#[derive(Clone, Debug, PartialEq, Eq)]
+pub enum Node {
+    Char { c: char, font: u32 },
+    /// `orig` = the characters of `lig_ptr`; `subtype` = 2*left_boundary + right_boundary (§143)
+    Lig { orig: Vec<char>, font: u32, left_boundary: bool, right_boundary: bool },
+    /// `normal` = a font kern (subtype 0); explicit / accent / math kerns are not
+    Kern { normal: bool },
+    Whatsit,
+    Glue,
+    Penalty,
+    Ins,
+    Adjust,
+    Mark,
+    /// hlist, vlist, rule, disc, math ("othercases" of §899)
+    Other,
+}
+
+/// `hyf_bchar` at the end of §897.
+#[derive(Clone, Copy, Debug, PartialEq, Eq)]
+pub enum Bchar {
+    NonChar,
+    /// `font_bchar[hf]` (which may itself be `non_char`)
+    Font,
+    Char(char),
+}
+
+#[derive(Clone, Debug, PartialEq, Eq)]
+pub struct Word {
+    /// index of the glue node the search started from (`cur_p`)
+    pub glue: usize,
+    /// index of `ha`: the node *before* the first letter node (§896: `ha:=prev_s`)
+    pub ha: usize,
+    /// index of the last node that belongs to the word (`hb`, §897: a letter node, or a font kern /
+    /// letterless ligature that follows one)
+    pub hb: usize,
+    pub font: u32,
+    /// `hu[1..=hn]`, as found (not lower-cased)
+    pub letters: Vec<char>,
+    pub bchar: Bchar,
+}
+
+pub struct FinderParams<'a> {
+    pub lc: &'a dyn Fn(char) -> Option<char>,
+    /// `\uchyph > 0`
+    pub uc_hyph: bool,
+    pub l_hyf: usize,
+    pub r_hyf: usize,
+    /// `\hyphenchar` of the font is in 0..=255 (§891: otherwise `goto done1`)
+    pub hyphen_char_ok: &'a dyn Fn(u32) -> bool,
+}
+
+/// §894-899 started at the glue node `list[glue]`: the word TeX will try to hyphenate, if any.
+pub fn find_word(list: &[Node], glue: usize, fp: &FinderParams) -> Option<Word> {
+    debug_assert!(matches!(list[glue], Node::Glue));
+    // §894: prev_s:=cur_p; s:=link(prev_s)
+    let mut prev_s = glue;
+    let mut s = glue + 1;
+    // §896: skip to node ha, or goto done1 if no hyphenation should be attempted
+    let hf: u32;
+    loop {
+        let node = list.get(s)?; // s = null: nothing to do
+        let c: char;
+        let f: u32;
+        match node {
+            Node::Char { c: ch, font } => {
+                c = *ch;
+                f = *font;
+            }
+            Node::Lig { orig, font, .. } => {
+                if orig.is_empty() {
+                    prev_s = s;
+                    s += 1;
+                    continue;
+                }
+                c = orig[0];
+                f = *font;
+            }
+            Node::Kern { normal: true } => {
+                prev_s = s;
+                s += 1;
+                continue;
+            }
+            Node::Whatsit => {
+                prev_s = s;
+                s += 1;
+                continue;
+            }
+            _ => return None, // done1
+        }
+        if let Some(l) = (fp.lc)(c) {
+            if l == c || fp.uc_hyph {
+                hf = f;
+                break; // done2
+            }
+            return None;
+        }
+        prev_s = s;
+        s += 1;
+    }
+    // done2
+    if !(fp.hyphen_char_ok)(hf) {
+        return None;
+    }
+    let ha = prev_s;
+    // §894
+    if fp.l_hyf + fp.r_hyf > 63 {
+        return None;
+    }
+    // §897: skip to node hb, putting letters into hu
+    let mut letters: Vec<char> = vec![];
+    let mut hb = ha;
+    let mut bchar = Bchar::NonChar; // never read before it is set: the first node is a letter node
+    'outer: loop {
+        let Some(node) = list.get(s) else { break };
+        match node {
+            Node::Char { c, font } => {
+                if *font != hf {
+                    break;
+                }
+                bchar = Bchar::Char(*c);
+                if (fp.lc)(*c).is_none() {
+                    break;
+                }
+                if letters.len() == 63 {
+                    break;
+                }
+                hb = s;
+                letters.push(*c);
+                bchar = Bchar::NonChar;
+            }
+            Node::Lig { orig, font, right_boundary, .. } => {
+                // §898
+                if *font != hf {
+                    break;
+                }
+                if let Some(c) = orig.first() {
+                    bchar = Bchar::Char(*c);
+                }
+                let mut j = letters.len();
+                for c in orig {
+                    if (fp.lc)(*c).is_none() {
+                        break 'outer;
+                    }
+                    if j == 63 {
+                        break 'outer;
+                    }
+                    j += 1;
+                }
+                letters.extend(orig.iter().copied());
+                hb = s;
+                bchar = if *right_boundary { Bchar::Font } else { Bchar::NonChar };
+            }
+            Node::Kern { normal: true } => {
+                hb = s;
+                bchar = Bchar::Font;
+            }
+            _ => break,
+        }
+        s += 1;
+    }
+    // §899: check that the nodes following hb permit hyphenation and that at least
+    // l_hyf + r_hyf letters have been found
+    if letters.len() < fp.l_hyf + fp.r_hyf {
+        return None;
+    }
+    loop {
+        let Some(node) = list.get(s) else { break }; // end of the list: TeX's lists end with glue/penalty; treated as done4
+        match node {
+            Node::Char { .. } | Node::Lig { .. } => {}
+            Node::Kern { normal } => {
+                if !*normal {
+                    break;
+                }
+            }
+            Node::Whatsit | Node::Glue | Node::Penalty | Node::Ins | Node::Adjust | Node::Mark => break,
+            Node::Other => return None,
+        }
+        s += 1;
+    }
+    Some(Word { glue, ha, hb, font: hf, letters, bchar })
+}
+
+/// Every word TeX tries in `list`: one search per glue node (§866 calls §894 at each glue node of the
+/// paragraph during the second pass).
+pub fn words(list: &[Node], fp: &FinderParams) -> Vec<Word> {
+    (0..list.len()).filter(|i| matches!(list[*i], Node::Glue)).filter_map(|g| find_word(list, g, fp)).collect()
+}
+
+#[cfg(test)]
+mod tests {
+    use super::*;
+
+    fn pos(patterns: &str, exceptions: &[&str], word: &str) -> Vec<usize> {
+        let mut l = Liang::new();
+        assert!(l.add_patterns(patterns, &ascii_lc).is_empty());
+        for e in exceptions {
+            l.add_exception(e, &ascii_lc);
+        }
+        l.positions(&word.chars().collect::<Vec<_>>(), &ascii_lc, 1, 1).unwrap()
+    }
+
+    #[test]
+    fn by_definition() {
+        assert_eq!(pos("a1b", &[], "ab"), vec![1]);
+        assert_eq!(pos("a1b a2b.", &[], "ab"), Vec::<usize>::new());
+        assert_eq!(pos("a1b a2b.", &[], "abab"), vec![1]);
+        assert_eq!(pos(".a1b", &[], "abab"), vec![1]);
+        assert_eq!(pos("1a", &[], "aaa"), vec![1, 2]);
+        assert_eq!(pos("a9b", &["ab"], "AB"), Vec::<usize>::new());
+        assert_eq!(pos("", &["a-b-a"], "ABA"), vec![1, 2]);
+    }
+
+    #[test]
+    fn finder() {
+        let fp = FinderParams { lc: &ascii_lc, uc_hyph: true, l_hyf: 1, r_hyf: 1, hyphen_char_ok: &|_| true };
+        let ch = |c| Node::Char { c, font: 0 };
+        let l = vec![ch('x'), Node::Glue, ch('3'), ch('.'), ch('0'), Node::Glue, ch('a'), ch('b'), ch('.')];
+        let w = words(&l, &fp);
+        assert_eq!(w.len(), 1);
+        assert_eq!((w[0].ha, w[0].hb, w[0].bchar), (5, 7, Bchar::Char('.')));
+        assert_eq!(w[0].letters, vec!['a', 'b']);
+    }
+}
